@@ -89,10 +89,20 @@ def systematic_cases(rng):
         st("Track", [["pos", arr(F64, [3])], ["charge", I64]]), st("Track", [["pos", arr(F64, [6])], ["charge", I64]]),
         arr(st("Point", [["x", F64], ["y", F64]]), [None]), arr(st("Point", [["x", F64], ["y", F64], ["z", F64]]), [None]),
         st("Holder", [["a", I32], ["p", arr(I64, [None])]]), st("Holder", [["a", I32], ["s", {"k": "string"}], ["p", arr(I64, [None])]]),
+        # one access path through TWO arrays whose strides live in the buffer (each brings its own stride variables)
+        arr(st("SGrid", [["k", I64], ["m", arr(F64, [None, None])]]), [None, None]),
+        arr(st("SGrid3", [["m", arr(I32, [None, 2], [1, 0])], ["k", I64]]), [2, None], [1, 0]),
+        st("SRefHold", [["n", I64], ["r", {"k": "ref", "target": arr(F64, [None])}], ["q", {"k": "ref", "target": arr(I32, [None])}]]),
+        # 3-D arrays of variable-size items under the two cyclic axis orders (not their own inverse), not cubic
+        arr({"k": "string"}, [2, 3, None], [1, 2, 0]), arr(arr(F64, [None]), [None, 3, 2], [2, 0, 1]),
+        st("SCyc", [["k", I64], ["a", arr({"k": "string"}, [2, None, 3], [2, 0, 1])], ["z", I32]]),
     ]
     out = []
     for t in types:
         v = G.gen_value(rng, t)
+        if t.get("name") == "SRefHold":     # both references set, targets of 2 and 3 items
+            v = {"f": [v["f"][0], {"r": {"shape": [2], "items": [G.scalar_value(rng, "Float64") for _ in range(2)]}},
+                       {"r": {"shape": [3], "items": [G.scalar_value(rng, "Int32") for _ in range(3)]}}]}
         out.append({"type": t, "value": v, "prep": {"kind": "numpy", "cap": 256, "al": 8, "poison": 0xA5, "pre": [["alloc", 24]]}, "seed": rng.randrange(1 << 30)})
     return out
 
@@ -258,7 +268,7 @@ def run(ctx):
                 mine = (pid == "C07") == (call["action"] == "set")
                 if not mine: continue
                 ncalls += 1
-                feat = feature(c["type"], call["path"]) + ("/after-buffer-growth" if call.get("phase") == "after-growth" else "")
+                feat = feature(c["type"], call["path"]) + {"after-growth": "/after-buffer-growth", "after-rebind": "/after-reference-rebound-to-a-new-target"}.get(call.get("phase"), "")
                 if "exc" in call:
                     note("%s/calling-%s-raises-%s/%s" % (pid, call["action"], call["exc"], feat), "%s%s: %s" % (call["name"], call["idx"], call.get("msg")), i, call)
                 elif call["c"] != call["py"]:
@@ -273,7 +283,7 @@ def run(ctx):
     # ---- C15 supporting: host compiler acceptance
     nsyn = 0
     if pid == "C15":
-        bad, nsyn = syntax_check(ctx, [c["type"] for c in cases[:bud["n_syntax"]]], TARGETS)
+        bad, nsyn = syntax_check(ctx, [c["type"] for c in cases[:max(bud["n_syntax"], nfixed + 4)]], TARGETS)
         for k, tg, msg in bad:
             note("C15/host-compiler-rejects-%s-specialisation" % tg, msg, k)
     found = False
